@@ -223,6 +223,56 @@ def c15(report, rng, tier, findings):
                    "condition neither constantly true nor false")
     judge = QueryJudge(report, findings, 'C15', nontrivial=nontrivial_filter, check_tree=True)
     run_query_cases(report, cases, {'caching': (False, True), 'evals': 1}, judge)
+    # sub-queries (an / the) as OPERANDS of a comparison: the operand is restricted to the sub-query's solutions.
+    # The implementation builds the real operand form; oracle and model get the flattened explicit twin.
+    ocases = []
+    tries = 0
+    while len(ocases) < max(60, n // 2) and tries < 40 * n:
+        tries += 1
+        cfg = gen.Cfg(n_vars=(2, 2), n_objs=(2, 4), depth=1, empty_domain=0.0, preds=False, share_domain=0.5)
+        base = gen.gen_case(rng, cfg, f'o{tries}')
+        base['vars'] = [(vid, 'A', raw) for vid, _, raw in base['vars']]
+        x, z = 0, 1
+        gz = gen.CondGen(rng, cfg, [z])
+        gx = gen.CondGen(rng, cfg, [x])
+        inner = [gz.atom() for _ in range(rng.choice((1, 1, 2)))]
+        quant = rng.choice(('an', 'an', 'the'))
+        if quant == 'the':
+            try:
+                k = len(surface.Oracle({**base, 'sel': [('var', z)], 'cond': inner, 'quant': 'an'}).rows())
+            except Exception:
+                continue
+            if k != 1:
+                continue
+        sq = ('subq', quant, z) + tuple(inner)
+        shape = rng.choice(('attr', 'attr', 'obj'))
+        if shape == 'attr':
+            op = rng.choice(('eq', 'ne', 'lt', 'ge'))
+            atom_i = ('cmp', op, ('attr', 'a', ('var', x)), ('attr', 'a', sq))
+            atom_e = ('cmp', op, ('attr', 'a', ('var', x)), ('attr', 'a', ('var', z)))
+        else:
+            op = rng.choice(('eq', 'ne'))
+            atom_i = ('cmp', op, ('attr', 'ref', ('var', x)), sq)
+            atom_e = ('cmp', op, ('attr', 'ref', ('var', x)), ('var', z))
+        if rng.random() < 0.3:
+            atom_i = ('cmp', atom_i[1], atom_i[3], atom_i[2]) if atom_i[1] in ('eq', 'ne') else atom_i
+            atom_e = ('cmp', atom_e[1], atom_e[3], atom_e[2]) if atom_e[1] in ('eq', 'ne') else atom_e
+        extra = [gx.atom()] if rng.random() < 0.4 else []
+        case = dict(base)
+        case.update({'sel': [('var', x)], 'entity': True, 'cond': [atom_i] + extra,
+                     'explicit': {**base, 'sel': [('var', x)], 'entity': True, 'cond': inner + [atom_e] + extra},
+                     'operand_quant': quant})
+        ocases.append(case)
+
+    class OJ(QueryJudge):
+        def __call__(self, case, res, drv):
+            self.report.count('operand_subquery_' + case['operand_quant'])
+            # no tree/L2 claim for the operand form: compare rows with the oracle of the flattened twin only
+            drv = {**drv}
+            drv.pop('l2', None)
+            super().__call__(case, res, drv)
+    run_query_cases(report, ocases, {'caching': (False, True), 'evals': 1},
+                    OJ(report, findings, 'C15', nontrivial=nontrivial_filter))
     return ['EqlModel.Props.C15'], [
         "sub-queries as comparison operands and as constructor arguments are covered by the C13/C11 correspondence streams, not by a theorem",
         "every non-selected variable has a non-empty domain"]
